@@ -89,6 +89,13 @@ func OpenChain(t testing.TB, single bool, cfg func(*config.Blockchain), st stora
 	return bc, v, c, nil
 }
 
+// OpenChainNoRun is OpenChain without starting Run (needed by Reset, which
+// refuses to work on a running chain). Multi-validator network only.
+func OpenChainNoRun(t testing.TB, single bool, cfg func(*config.Blockchain), st storage.Store) (*core.Blockchain, neotest.Signer, neotest.Signer, error) {
+	opts := &chain.Options{BlockchainConfigHook: cfg, Store: st, SkipRun: true, Logger: zap.NewNop()}
+	return chain.NewMultiWithOptionsNoCheck(t, opts)
+}
+
 // noFail turns require failures of neotest constructors into panics that
 // OpenChain converts to errors.
 type noFail struct{ testing.TB }
